@@ -265,12 +265,8 @@ func doWorker(c *vfw.Check, tier string, seed uint64, k, n, secs, maxRuns int, o
 			if err != nil {
 				continue
 			}
-			vals := make([]int, len(rf.Tape))
-			for i, ch := range rf.Tape {
-				vals[i] = ch.V
-			}
 			res.Probes["regression_tapes_replayed"]++
-			if !process(seamrt.ReplayTape(vals), -1000-fi, 1000) {
+			if !process(seamrt.ReplayTapeKinds(rf.Tape), -1000-fi, 1000) {
 				break
 			}
 		}
